@@ -359,3 +359,146 @@ Proof.
   - now apply L_rev.
 Qed.
 End Sym8.
+
+(* ------------------------------------------------------------------ *)
+(* D. consequences: no symmetry hypothesis left                          *)
+(* ------------------------------------------------------------------ *)
+Section Full.
+Context {F : Type} (K : Fops F) (Kf : is_field K).
+Hypothesis Hapx : forall x : F, fapx K x = x.
+Hypothesis char0 : forall n, ofnat K (S n) <> f0 K.
+Variable bs : list (shell F).
+Hypothesis OK : eri_basis_ok K bs.
+Notation s_ k := (sh_at K bs k).
+Notation n := (length bs).
+
+Lemma eri_basis_ok_to_cart : eri_basis_ok K (map to_cart bs).
+Proof.
+  destruct OK as (C & D & E). split; [|split].
+  - intros s Hs. apply in_map_iff in Hs. destruct Hs as [s0 [<- H0]]. exact (C s0 H0).
+  - intros s Hs. apply in_map_iff in Hs. destruct Hs as [s0 [<- H0]]. exact (D s0 H0).
+  - intros a b c d Ha Hb Hc Hd.
+    apply in_map_iff in Ha. destruct Ha as [a0 [<- Ha0]]. apply in_map_iff in Hb. destruct Hb as [b0 [<- Hb0]].
+    apply in_map_iff in Hc. destruct Hc as [c0 [<- Hc0]]. apply in_map_iff in Hd. destruct Hd as [d0 [<- Hd0]].
+    exact (E a0 b0 c0 d0 Ha0 Hb0 Hc0 Hd0).
+Qed.
+
+Lemma Beri_shape4 : shape4 n (fun k => odim (s_ k)) (Beri K bs).
+Proof.
+  intros i j k l Hi Hj Hk Hl. rewrite (Beri_Bq K bs) by assumption. exact (Bq_shape K _ _ _ _).
+Qed.
+
+(* the store-and-concatenate assembly of base_four_symm.py is the plain concatenation of all n^4 blocks *)
+Theorem eri_integral_is_concat : eri_integral K bs None false = four_concat n (Beri K bs).
+Proof.
+  rewrite eri_integral_chem.
+  rewrite (four_symm_is_concat (f0 K) (fadd K) (fmul K) 2 (ess K bs) (ebf K bs)); rewrite ess_length; [reflexivity|].
+  exact (eri_sym8 K Kf Hapx char0 bs OK).
+Qed.
+
+(* EVERY entry of the assembled ERI array: the quadruple sum over the raw block of its own shell quartet *)
+Theorem eri_integral_entry i j k l m1 q1 m2 q2 m3 q3 m4 q4 :
+  i < n -> j < n -> k < n -> l < n ->
+  m1 < nseg (s_ i) -> q1 < osize (s_ i) -> m2 < nseg (s_ j) -> q2 < osize (s_ j) ->
+  m3 < nseg (s_ k) -> q3 < osize (s_ k) -> m4 < nseg (s_ l) -> q4 < osize (s_ l) ->
+  Assembly14.get4 (f0 K) (eri_integral K bs None false)
+    (oidx K bs i m1 q1) (oidx K bs j m2 q2) (oidx K bs k m3 q3) (oidx K bs l m4 q4)
+  = Eq K (s_ i) (s_ j) (s_ k) (s_ l) m1 q1 m2 q2 m3 q3 m4 q4.
+Proof.
+  intros Hi Hj Hk Hl H1 H2 H3 H4 H5 H6 H7 H8. rewrite eri_integral_is_concat.
+  unfold oidx, ooff. rewrite <- !off_offs.
+  rewrite (four_concat_entry (f0 K) n (fun t => odim (s_ t)) _ Beri_shape4 i j k l)
+    by (try assumption; unfold odim; now apply idx_lt).
+  rewrite (Beri_Bq K bs) by assumption. now apply (Bq_entry K Kf).
+Qed.
+
+(* C09: mixed basis = T (x) T (x) T (x) T applied to the all-Cartesian array *)
+Theorem eri_mixed_is_cart_transformed_full i j k l m1 q1 m2 q2 m3 q3 m4 q4 :
+  i < n -> j < n -> k < n -> l < n ->
+  m1 < nseg (s_ i) -> q1 < osize (s_ i) -> m2 < nseg (s_ j) -> q2 < osize (s_ j) ->
+  m3 < nseg (s_ k) -> q3 < osize (s_ k) -> m4 < nseg (s_ l) -> q4 < osize (s_ l) ->
+  Assembly14.get4 (f0 K) (eri_integral K bs None false)
+    (oidx K bs i m1 q1) (oidx K bs j m2 q2) (oidx K bs k m3 q3) (oidx K bs l m4 q4)
+  = tsum K (f0 K) (fadd K) (fmul K) (s_sph (s_ i)) (shell_transform K (s_ i)) (ncomp (s_ i)) q1 (fun c1 =>
+    tsum K (f0 K) (fadd K) (fmul K) (s_sph (s_ j)) (shell_transform K (s_ j)) (ncomp (s_ j)) q2 (fun c2 =>
+    tsum K (f0 K) (fadd K) (fmul K) (s_sph (s_ k)) (shell_transform K (s_ k)) (ncomp (s_ k)) q3 (fun c3 =>
+    tsum K (f0 K) (fadd K) (fmul K) (s_sph (s_ l)) (shell_transform K (s_ l)) (ncomp (s_ l)) q4 (fun c4 =>
+      Assembly14.get4 (f0 K) (eri_integral K (map to_cart bs) None false)
+        (gidx K bs i m1 c1) (gidx K bs j m2 c2) (gidx K bs k m3 c3) (gidx K bs l m4 c4))))).
+Proof.
+  apply (eri_mixed_is_cart_transformed K bs).
+  - exact (eri_sym8 K Kf Hapx char0 bs OK).
+  - rewrite <- (map_length to_cart bs). exact (eri_sym8 K Kf Hapx char0 (map to_cart bs) eri_basis_ok_to_cart).
+Qed.
+
+(* C11: reordering / selecting the shells only reorders the four basis-function indices *)
+Theorem eri_integral_perm_full ds p :
+  Forall (fun k => k < n) p ->
+  let r := fun k => odim (s_ k) in
+  forall x1 x2 x3 x4, x1 < length (iperm r p) -> x2 < length (iperm r p) ->
+    x3 < length (iperm r p) -> x4 < length (iperm r p) ->
+  Assembly14.get4 (f0 K) (eri_integral K (sel ds p bs) None false) x1 x2 x3 x4
+  = Assembly14.get4 (f0 K) (eri_integral K bs None false)
+      (nth x1 (iperm r p) 0) (nth x2 (iperm r p) 0) (nth x3 (iperm r p) 0) (nth x4 (iperm r p) 0).
+Proof.
+  intros Hp r. apply (eri_integral_perm K bs ds r p Beri_shape4 (eri_sym8 K Kf Hapx char0 bs OK) Hp).
+Qed.
+End Full.
+
+(* ------------------------------------------------------------------ *)
+(* the hypotheses are satisfiable: a mixed basis over Qc (spherical d shell, Cartesian p shell, s shell; two
+   primitives each, Proofs/TwoElecP.ex_shell)                            *)
+(* ------------------------------------------------------------------ *)
+From Coq Require Import QArith Qcanon.
+
+Definition ex_sph (s : shell Qc) : shell Qc :=
+  mkShell Qc (s_l s) (s_x s) (s_y s) (s_z s) (s_exps s) (s_coeffs s) true (s_comps s) (s_labels s).
+Definition ex_eri_basis : list (shell Qc) := [ex_sph ex_s2; ex_s1; ex_s3].
+
+Definition ex_exps : list Qc := [qc_of 3 2; qc_of 1 4; qc_of 1 1; qc_of 1 2; qc_of 2 1].
+Lemma ex_exps_in s x : In s ex_eri_basis -> In x (s_exps s) -> In x ex_exps.
+Proof.
+  intros [<-|[<-|[<-|[]]]] Hx; cbn [s_exps ex_sph ex_s1 ex_s2 ex_s3 ex_shell In ex_exps] in Hx |- *; tauto.
+Qed.
+
+Lemma ex_nz2 : forall x y, In x ex_exps -> In y ex_exps -> fadd KQ4 x y <> f0 KQ4.
+Proof.
+  assert (B : forallb (fun x => forallb (fun y => negb (Qeq_bool (fadd KQ4 x y) (f0 KQ4))) ex_exps) ex_exps = true)
+    by (vm_compute; reflexivity).
+  intros x y Hx Hy. rewrite forallb_forall in B. specialize (B x Hx). rewrite forallb_forall in B.
+  specialize (B y Hy). apply qc_neq_of_bool. now destruct (Qeq_bool (fadd KQ4 x y) (f0 KQ4)).
+Qed.
+Lemma ex_nz4 : forall x y z w, In x ex_exps -> In y ex_exps -> In z ex_exps -> In w ex_exps ->
+  fadd KQ4 (fadd KQ4 x y) (fadd KQ4 z w) <> f0 KQ4.
+Proof.
+  assert (B : forallb (fun x => forallb (fun y => forallb (fun z => forallb (fun w =>
+                negb (Qeq_bool (fadd KQ4 (fadd KQ4 x y) (fadd KQ4 z w)) (f0 KQ4))) ex_exps) ex_exps) ex_exps) ex_exps = true)
+    by (vm_compute; reflexivity).
+  intros x y z w Hx Hy Hz Hw. rewrite forallb_forall in B. specialize (B x Hx). rewrite forallb_forall in B.
+  specialize (B y Hy). rewrite forallb_forall in B. specialize (B z Hz). rewrite forallb_forall in B.
+  specialize (B w Hw). apply qc_neq_of_bool.
+  now destruct (Qeq_bool (fadd KQ4 (fadd KQ4 x y) (fadd KQ4 z w)) (f0 KQ4)).
+Qed.
+
+Lemma ex_eri_basis_ok : eri_basis_ok KQ4 ex_eri_basis.
+Proof.
+  split; [|split].
+  - intros s [<-|[<-|[<-|[]]]]; vm_compute; lia.
+  - intros s [<-|[<-|[<-|[]]]] i Hi; vm_compute in Hi;
+      do 7 (destruct i as [|i]; [vm_compute; lia|]); lia.
+  - intros a b c d Ha Hb Hc Hd. repeat split.
+    + intros x y Hx Hy. apply ex_nz2; [exact (ex_exps_in a x Ha Hx)|exact (ex_exps_in b y Hb Hy)].
+    + intros x y Hx Hy. apply ex_nz2; [exact (ex_exps_in c x Hc Hx)|exact (ex_exps_in d y Hd Hy)].
+    + intros x y z w Hx Hy Hz Hw.
+      apply ex_nz4; [exact (ex_exps_in a x Ha Hx)|exact (ex_exps_in b y Hb Hy)|exact (ex_exps_in c z Hc Hz)|exact (ex_exps_in d w Hd Hw)].
+Qed.
+
+Example ex_eri_full :
+  is_field KQ4 /\ (forall x, fapx KQ4 x = x) /\ (forall n, ofnat KQ4 (S n) <> f0 KQ4) /\
+  eri_basis_ok KQ4 ex_eri_basis /\ ototal KQ4 ex_eri_basis = 9%nat /\
+  sym8 (f0 KQ4) 3%nat (Beri KQ4 ex_eri_basis).
+Proof.
+  split; [exact KQ4_field|]. split; [reflexivity|]. split; [exact orient_char0_ex|].
+  split; [exact ex_eri_basis_ok|]. split; [vm_compute; reflexivity|].
+  exact (eri_sym8 KQ4 KQ4_field (fun x => eq_refl) orient_char0_ex ex_eri_basis ex_eri_basis_ok).
+Qed.
